@@ -10,7 +10,7 @@ numerical and is not decided.
 from __future__ import annotations
 
 import ast
-from typing import List, Tuple
+from typing import Dict, List, Set, Tuple
 
 from .. import cxx
 from ..index import get_index, norm
@@ -35,6 +35,10 @@ def run(ctx: Context) -> None:
     clause_d_python(ctx)
     ctx.rule("C04e", "an exact zero test of a sum in the python kernels is applied to summands that cannot cancel (absolute values, squares, non-negative counts)")
     clause_e_python(ctx)
+    ctx.rule("C04f", "a scale factor computed as a norm of the input (sum of absolute values) is never used as a divisor without a zero test: the all-zero matrix is a legal input")
+    clause_f_python(ctx)
+    ctx.rule("C04g", "an element of a kernel's input array (or of a copy of it) is only updated from its old value, never overwritten with a value that ignores it: the result depends on every entry of the multiplicity vector")
+    clause_g_python(ctx)
     ctx.rule("C04c", "a helper that rescales its matrix argument in place and returns (matrix, factor) returns, on every path, the factor it applied on that path (1 when it applied none)")
     clause_c(ctx)
     ctx.assume("LP64 data model (int 32 bits, long/int64_t 64 bits)")
@@ -218,3 +222,164 @@ def clause_e_python(ctx: Context) -> None:
                                   f"`{norm(c)}` tests the vanishing of the sum of `{norm(summand(src))[:50]}`, whose entries can cancel: a vector with "
                                   f"entries (+g, -g) takes the all-zero shortcut although it is not zero", norm(c))
     ctx.require_floor("C04e exact zero tests of a sum in the python kernels", n, 2)
+
+
+def _hafnian_modules(idx):
+    for mname, m in sorted(idx.modules.items()):
+        if mname.startswith("piquasso._math.hafnian") or mname == "piquasso._math.jax.hafnian":
+            yield mname, m
+
+
+def clause_f_python(ctx: Context) -> None:
+    """norm-valued locals: bound to an expression that contains sum(abs(X)) (possibly squared, scaled by constants and sizes).  Such a value
+    is 0 for the all-zero matrix.  Using it as a divisor (x / s, 1 / s) - in the same function, or in a callee that receives it, or after it
+    was returned to a caller - needs a dominating test of s against zero / a small threshold whose zero side leaves or rebinds s."""
+    from ..index import get_index, dotted
+    from .. import cfg as cfgmod
+    idx = get_index(ctx.repo)
+
+    def is_norm_expr(e: ast.AST, norms: Set[str]) -> bool:
+        for x in ast.walk(e):
+            if isinstance(x, ast.Call) and (dotted(x.func) or "").split(".")[-1] == "sum" and x.args:
+                inner = x.args[0]
+                if any(isinstance(y, ast.Call) and (dotted(y.func) or "").split(".")[-1] in ("abs", "absolute") for y in ast.walk(inner)):
+                    return True
+            if isinstance(x, ast.Name) and x.id in norms:
+                return True
+        return False
+
+    def only_scaling(e: ast.AST, norms: Set[str]) -> bool:
+        """e is a norm times / divided by things (no additive constant that would keep it away from zero)"""
+        if isinstance(e, ast.BinOp) and isinstance(e.op, (ast.Add, ast.Sub)):
+            return False
+        if isinstance(e, ast.BinOp):
+            return only_scaling(e.left, norms) if is_norm_expr(e.left, norms) else (only_scaling(e.right, norms) if isinstance(e.op, ast.Mult) else False)
+        if isinstance(e, ast.Call) and (dotted(e.func) or "").split(".")[-1] in ("sqrt", "abs", "float", "real"):
+            return bool(e.args) and only_scaling(e.args[0], norms)
+        return is_norm_expr(e, norms)
+
+    n_norms = 0
+    # summaries: functions returning an unguarded norm; parameters used as unguarded divisors
+    returns_norm: Dict[str, bool] = {}
+    divides_by_param: Dict[str, Set[int]] = {}
+    per_fn = []
+    for mname, m in _hafnian_modules(idx):
+        for fn in m.functions.values():
+            per_fn.append((mname, m, fn))
+    for round_ in (0, 1):
+        for mname, m, fn in per_fn:
+            params = fn.params()
+            norms: Set[str] = set()
+            changed = True
+            while changed:
+                changed = False
+                for a in ast.walk(fn.node):
+                    if isinstance(a, ast.Assign) and len(a.targets) == 1 and isinstance(a.targets[0], ast.Name) and a.targets[0].id not in norms:
+                        v = a.value
+                        callee = (dotted(v.func) or "").split(".")[-1] if isinstance(v, ast.Call) else None
+                        if (only_scaling(v, norms)) or (callee is not None and returns_norm.get(callee)):
+                            norms.add(a.targets[0].id)
+                            changed = True
+            if round_ == 0:
+                n_norms += len(norms)
+            g = cfgmod.build(fn.node)
+
+            def guard_for(name: str):
+                def is_guard(nd) -> bool:
+                    if nd.kind != "test" or not isinstance(nd.stmt, ast.If):
+                        return False
+                    t = nd.stmt.test
+                    if not (isinstance(t, ast.Compare) and len(t.ops) == 1 and isinstance(t.left, ast.Name) and t.left.id == name
+                            and isinstance(t.ops[0], (ast.Eq, ast.Lt, ast.LtE)) and isinstance(t.comparators[0], ast.Constant)):
+                        return False
+                    body = nd.stmt.body
+                    leaves = isinstance(body[-1], (ast.Return, ast.Raise))
+                    rebinds = any(isinstance(b, ast.Assign) and isinstance(b.targets[0], ast.Name) and b.targets[0].id == name
+                                  and isinstance(b.value, ast.Constant) and b.value.value not in (0, 0.0) for b in body)
+                    return leaves or rebinds
+                return is_guard
+
+            def unguarded(nd, name: str) -> bool:
+                # a guard that rebinds the name does not dominate in the CFG sense (both branches continue): accept it when it precedes
+                # the use in the same block chain, i.e. the use is not reachable from ENTRY without passing the guard's test node
+                return not g.dominates(guard_for(name), nd.id)
+
+            divs = []
+            for nd in g.nodes:
+                if nd.stmt is None:
+                    continue
+                for x in cfgmod.own_nodes(nd):
+                    if isinstance(x, ast.BinOp) and isinstance(x.op, (ast.Div, ast.FloorDiv)) and isinstance(x.right, ast.Name):
+                        divs.append((nd, x, x.right.id))
+            for nd, x, name in divs:
+                if name in norms and unguarded(nd, name):
+                    if round_ == 1:
+                        key = f"{fn.qualname}|division by the norm `{name}`"
+                        ctx.violation("C04f", key, fn.file, x.lineno,
+                                      f"`{norm(x)[:70]}` divides by `{name}`, a norm of the input matrix (sum of absolute values, rescaled): for the "
+                                      f"all-zero matrix it is 0 and the kernel returns nan / raises ZeroDivisionError instead of the value of the "
+                                      f"defining sum", norm(x)[:100])
+                if name in params and unguarded(nd, name):
+                    divides_by_param.setdefault(fn.name, set()).add(params.index(name))
+            # returned norms
+            rn = False
+            for nd in g.nodes:
+                if nd.kind == "return" and isinstance(nd.stmt, ast.Return) and nd.stmt.value is not None:
+                    v = nd.stmt.value
+                    if (isinstance(v, ast.Name) and v.id in norms and unguarded(nd, v.id)) or (not isinstance(v, ast.Name) and only_scaling(v, norms)):
+                        rn = True
+            returns_norm[fn.name] = rn
+            # norms handed to callees that divide by the parameter
+            if round_ == 1:
+                for nd in g.nodes:
+                    if nd.stmt is None:
+                        continue
+                    for c in cfgmod.own_nodes(nd):
+                        if isinstance(c, ast.Call) and isinstance(c.func, ast.Name) and c.func.id in divides_by_param:
+                            for i, a in enumerate(c.args):
+                                if i in divides_by_param[c.func.id] and isinstance(a, ast.Name) and a.id in norms and unguarded(nd, a.id):
+                                    key = f"{fn.qualname}|{c.func.id} divides by the norm `{a.id}`"
+                                    ctx.violation("C04f", key, fn.file, c.lineno,
+                                                  f"`{a.id}` is a norm of the input matrix (0 for the all-zero matrix) and {c.func.id} divides by the "
+                                                  f"parameter it is passed as, without a zero test on the way: the kernel returns nan / raises "
+                                                  f"ZeroDivisionError for an all-zero matrix of this size", norm(c)[:100])
+    ctx.require_floor("C04f norm-valued locals in the hafnian kernels", n_norms, 3)
+    ctx.obligation("C04f", "hafnian kernels|norm divisors guarded", not any(f.rule == "C04f" for f in ctx.findings), norms=n_norms)
+
+
+def clause_g_python(ctx: Context) -> None:
+    from ..index import get_index, dotted
+    idx = get_index(ctx.repo)
+    n_stores = 0
+    for mname, m in _hafnian_modules(idx):
+        for fn in m.functions.values():
+            params = set(fn.params())
+            copies: Dict[str, str] = {}
+            for a in ast.walk(fn.node):
+                if isinstance(a, ast.Assign) and len(a.targets) == 1 and isinstance(a.targets[0], ast.Name) and isinstance(a.value, ast.Call):
+                    nm = (dotted(a.value.func) or "").split(".")[-1]
+                    src = None
+                    if nm in ("copy", "array", "asarray") and a.value.args and isinstance(a.value.args[0], ast.Name):
+                        src = a.value.args[0].id
+                    elif nm == "copy" and isinstance(a.value.func, ast.Attribute) and isinstance(a.value.func.value, ast.Name):
+                        src = a.value.func.value.id
+                    if src in params:
+                        copies[a.targets[0].id] = src
+            tracked = params | set(copies)
+            for a in ast.walk(fn.node):
+                if isinstance(a, ast.AugAssign) and isinstance(a.target, ast.Subscript) and isinstance(a.target.value, ast.Name) and a.target.value.id in tracked:
+                    n_stores += 1
+                if isinstance(a, ast.Assign) and len(a.targets) == 1 and isinstance(a.targets[0], ast.Subscript) and isinstance(a.targets[0].value, ast.Name) \
+                        and a.targets[0].value.id in tracked:
+                    n_stores += 1
+                    arr = a.targets[0].value.id
+                    origin = copies.get(arr, arr)
+                    reads = {x.id for x in ast.walk(a.value) if isinstance(x, ast.Name)}
+                    if arr not in reads and origin not in reads:
+                        key = f"{fn.qualname}|{norm(a)[:60]}"
+                        ctx.violation("C04g", key, fn.file, a.lineno,
+                                      f"`{norm(a)[:80]}` overwrites an entry of `{arr}`" + (f" (a copy of the argument `{origin}`)" if arr in copies else " (an argument)")
+                                      + " with a value that does not depend on what the entry held: the kernel gives the same result for inputs that "
+                                      "differ in that entry, which the defining sum does not", norm(a)[:100])
+    ctx.require_floor("C04g element stores into input arrays of the hafnian kernels", n_stores, 8)
+    ctx.obligation("C04g", "hafnian kernels|input entries updated, not overwritten", not any(f.rule == "C04g" for f in ctx.findings), stores=n_stores)
